@@ -520,7 +520,7 @@ class ClassPage(CommonPage):
 def get_override_info(cls:model.Class, member_name:str, page_url:Optional[str]=None) -> Iterator["Flattenable"]:
     page_url = page_url or cls.page_object.url
     for b in cls.mro(include_self=False):
-        if member_name not in b.contents:
+        if member_name not in b.contents or model.is_class_private_name(member_name):
             continue
         overridden = b.contents[member_name]
         yield tags.div(class_="interfaceinfo")(
